@@ -975,6 +975,7 @@ PARSED_UNUSED_OK = {
     "num_packedstreams": "count only; the indices are parsed into packed_indices",
     "num_coders": "count only",
     "antifiles": "anti-items are refused while parsing (unsupported feature fails loudly)",
+    "was_encrypted": "a note for the APPEND path (was the packed header 7zAES-coded?): consulted by SevenZipFile._prepare_append, R11.9; reading needs nothing of it",
 }
 
 
